@@ -1,8 +1,10 @@
 (* C11 (file-level part) / C13: executable model of how ninja reads and applies a DYNDEP file.
    Definitions only.
 
-   C++ modelled (the tree /repo, INCLUDING the commit "fix: propagate lexer errors in
-   DyndepParser::ParseEdge", i.e. the two [return err;] are [return false;]):
+   C++ modelled (the tree /repo, INCLUDING the commits
+     "fix: propagate lexer errors in DyndepParser::ParseEdge"  (the two [return err;] are [return false;]),
+     "fix: iterate over a copy of out_edges in DyndepLoader::LoadDyndeps",
+     "fix: bind dyndep-supplied restat in a scope private to the edge"):
      src/lexer.in.cc  (compiled: src/lexer.cc)  ReadToken / PeekToken / UnreadToken / EatWhitespace /
                                                 ReadIdent / ReadEvalString (ReadPath, ReadVarValue)
      src/eval_env.cc                            EvalString::Evaluate against the parser's EMPTY env
@@ -667,17 +669,27 @@ Definition opt_node_eqb (a : option node) (b : node) : bool :=
 (* ------------------------------------------------------------------------------------------ *)
 (** * DyndepLoader::UpdateEdge *)
 
+Definition scope_restat (e : edge) : edge :=
+  mkEdge (e_outs e) (e_nimp_out e) (e_ins e) (e_nimp e) (e_noo e) (e_dyndep e)
+         (Scope (Some true)) (e_rule_restat e).
+
+(* edge->env_ = new BindingEnv(edge->env_); edge->env_->AddBinding("restat", "1");
+   (the tree after "fix: bind dyndep-supplied restat in a scope private to the edge"): whatever env_ was --
+   the edge's own scope or, with the dyndep binding inherited from the rule and no indented
+   binding, the file-level scope -- the edge now has a scope of its own that binds restat; it
+   shadows an earlier "restat =" of the statement; no other edge sees it. *)
 Definition set_restat (g : graph) (i : nat) : graph :=
-  (* edge->env_->AddBinding("restat", "1"): env_ is the edge's own scope, or -- when the build
-     statement has no indented binding (dyndep bound at rule level) -- the FILE-LEVEL scope *)
+  mkGraph (update_nth i scope_restat (g_edges g)) (g_file_restat g).
+
+(* THE OLD CODE (before that fix): edge->env_->AddBinding("restat", "1") on the existing env_,
+   which is the FILE-LEVEL scope when the statement has no indented binding: restat leaks to
+   every edge of the manifest.  Kept for the refutation C11_restat_leak_witness. *)
+Definition set_restat_old (g : graph) (i : nat) : graph :=
   match nth_error (g_edges g) i with
   | None => g
   | Some e =>
     match e_scope e with
-    | Scope _ =>
-      mkGraph (update_nth i (fun e => mkEdge (e_outs e) (e_nimp_out e) (e_ins e) (e_nimp e) (e_noo e)
-                                             (e_dyndep e) (Scope (Some true)) (e_rule_restat e))
-                          (g_edges g)) (g_file_restat g)
+    | Scope _ => mkGraph (update_nth i scope_restat (g_edges g)) (g_file_restat g)
     | NoScope => mkGraph (g_edges g) (Some true)
     end
   end.
@@ -755,7 +767,9 @@ Definition bound_to (g0 : graph) (f : node) (i : nat) : bool :=
   | None => false
   end.
 
-(* for (Edge* edge : node->out_edges()) { if (edge->dyndep_ != node) continue; find; UpdateEdge }
+(* out_edges = COPY of node->out_edges() (UpdateEdge appends to the out edges of every implicit
+   input, possibly of this very node: the loop visits the edges that were out edges BEFORE the load);
+   for (Edge* edge : out_edges) { if (edge->dyndep_ != node) continue; find; UpdateEdge }
    [g0] = the graph before the load (statement keys), [g] = the graph being updated *)
 Fixpoint load_edges (g0 : graph) (f : node) (stmts : list dd_stmt) (oe : list nat) (g : graph)
   : result graph :=
@@ -791,6 +805,40 @@ Definition load_dyndep (g : graph) (f : node) (stmts : list dd_stmt) : result gr
     end
   end.
 
+(* the loader with the OLD UpdateEdge (restat into the existing env_), for the refutation only *)
+Definition update_edge_old (g : graph) (i : nat) (st : dd_stmt) : result graph :=
+  let g1 := if dd_restat st then set_restat_old g i else g in
+  match add_outs g1 i (dd_imp_outs st) with
+  | Err e => Err e
+  | Ok g2 =>
+    Ok (mkGraph (update_nth i (fun e => splice_ins e (dd_imp_ins st)) (g_edges g2)) (g_file_restat g2))
+  end.
+Fixpoint load_edges_old (g0 : graph) (f : node) (stmts : list dd_stmt) (oe : list nat) (g : graph)
+  : result graph :=
+  match oe with
+  | [] => Ok g
+  | i :: oe' =>
+    if negb (bound_to g0 f i) then load_edges_old g0 f stmts oe' g
+    else match find_stmt g0 stmts i with
+         | None => Err E_not_mentioned
+         | Some st =>
+           match update_edge_old g i st with
+           | Err e => Err e
+           | Ok g' => load_edges_old g0 f stmts oe' g'
+           end
+         end
+  end.
+Definition load_dyndep_old (g : graph) (f : node) (stmts : list dd_stmt) : result graph :=
+  match check_stmts g [] stmts with
+  | Some e => Err e
+  | None =>
+    let oe := out_edges g f in
+    match load_edges_old g f stmts oe g with
+    | Err e => Err e
+    | Ok g' => if forallb (stmt_used g f oe) stmts then Ok g' else Err E_not_bound
+    end
+  end.
+
 (* the whole of DyndepLoader::LoadDyndeps(node, &err) on file content [content]
    ([None] = the file does not exist) *)
 Definition dyndep_load (g : graph) (f : node) (content : option bytes) : result graph :=
@@ -802,15 +850,6 @@ Definition dyndep_load (g : graph) (f : node) (content : option bytes) : result 
     | Ok stmts => load_dyndep g f stmts
     end
   end.
-
-(* UNDEFINED BEHAVIOUR of the C++: the loop of LoadDyndeps iterates node->out_edges() by iterator
-   while UpdateEdge appends the edge to the out_edges of every implicit input.  When a statement
-   names the dyndep file ITSELF as an implicit input, the vector under iteration grows
-   (reallocation => heap-use-after-free; reproduced: SIGSEGV of the real binary).  [load_dyndep]
-   iterates over the list as it was before the loop, which is what the code does as long as the
-   stale iterators still see the old elements; the correspondence holds on [ub_self_input = false]. *)
-Definition ub_self_input (f : node) (stmts : list dd_stmt) : bool :=
-  existsb (fun st => mem_bytes f (dd_imp_ins st)) stmts.
 
 (* ------------------------------------------------------------------------------------------ *)
 (** * The manifest-level meaning: the same information written into the build statements *)
